@@ -9,12 +9,14 @@ package client
 
 import (
 	"math"
+	"time"
 
 	"github.com/simpleiot/simpleiot/data"
 )
 
 func init() {
 	vRegister("HarnessC13Rule", HarnessC13Rule)
+	vRegister("HarnessC13Schedule", HarnessC13Schedule)
 }
 
 // c13Name: "" or a one-letter name over {a, b}
@@ -228,5 +230,102 @@ func HarnessC13Rule() {
 		vAssert(nOtherAct == 1 && otherAct.Value == 0, "the opposite list is marked inactive")
 	} else {
 		vAssert(nSet == 0 && nOtherSet == 0 && nRunAct == 0 && nOtherAct == 0, "no action traffic without a change of the rule's state")
+	}
+}
+
+// HarnessC13Schedule: a rule with one schedule condition (optionally next to
+// an already satisfied point condition) processes one trigger point: the
+// condition is active exactly when the trigger time falls in the window, the
+// rule follows, and a change of state is written out once.
+func HarnessC13Schedule() {
+	nc := vConn()
+	sh, sm, eh, em := vRange(0, 23), vRange(0, 59), vRange(0, 23), vRange(0, 59)
+	wd := vChoose(8) // 7: every day
+	var wds []time.Weekday
+	weekdays := make([]bool, 7)
+	if wd < 7 {
+		weekdays[wd] = true
+		wds = []time.Weekday{time.Weekday(wd)}
+	}
+	sc := Condition{ID: "c0", Parent: "r", ConditionType: data.PointValueSchedule, Start: vHourMin(sh, sm), End: vHourMin(eh, em), Weekdays: weekdays, Active: vBool()}
+	cfg := Rule{ID: "r", Parent: "parent", Active: vBool(), Conditions: []Condition{sc}}
+	other := vBool()
+	otherActive := false
+	if other {
+		otherActive = vBool()
+		cfg.Conditions = append(cfg.Conditions, Condition{ID: "c1", Parent: "r", ConditionType: data.PointValuePointValue, ValueType: data.PointValueOnOff, Value: 1, NodeID: "zz", Active: otherActive})
+	}
+	act := Action{ID: "a0", Parent: "r", Action: data.PointValueSetValue, NodeID: "t", PointType: "v", Value: 1, Active: vBool()}
+	inact := Action{ID: "i0", Parent: "r", Action: data.PointValueSetValue, NodeID: "t", PointType: "w", Value: 1, Active: vBool()}
+	cfg.Actions, cfg.ActionsInactive = []Action{act}, []Action{inact}
+	condWas, ruleWas := sc.Active, cfg.Active
+
+	// the trigger instant: any second of a few anchor days, in UTC or in another zone
+	day := []int{19886, 19889, 19782, 19783}[vChoose(4)]
+	off := 0
+	if vBool() {
+		off = vRange(-50400, 50400)
+		vAssume(off != 0)
+		vCover("rule schedule: zoned trigger")
+	}
+	t := vInstant(day, vRange(0, 86399), vRange(0, 999999999), off)
+	pts := data.Points{{Type: data.PointTypeTrigger, Time: t}}
+	if vBool() {
+		// a point of another type at another time does not count as a trigger
+		pts = append(pts, data.Point{Type: "value", Time: vInstant(19416, vRange(0, 86399), 0, 0), Value: 1})
+	}
+
+	rc := NewRuleClient(nc, cfg).(*RuleClient)
+	vGo(func() {
+		rc.newRulePoints <- NewPoints{ID: "r", Points: pts}
+		close(rc.stop)
+	})
+	err := rc.Run()
+	vAssert(err == nil, "rule client runs and stops cleanly")
+
+	want := c14Want(t, sh, sm, eh, em, wds, nil)
+	if want {
+		vCover("rule schedule: inside the window")
+	} else {
+		vCover("rule schedule: outside the window")
+	}
+	vAssert(rc.config.Conditions[0].Active == want, "a schedule condition is active exactly when the trigger time falls in its window")
+	all := want && (!other || otherActive)
+	vAssert(rc.config.Active == all, "rule is active exactly when all conditions are")
+
+	nCond, nRule, lastCond, lastRule := 0, 0, -1.0, -1.0
+	for _, e := range vEvents(nc) {
+		if e.Kind != "pub" {
+			continue
+		}
+		ps, derr := data.PbDecodePoints(e.Data)
+		vAssert(derr == nil, "rule publishes decodable points")
+		for _, p := range ps {
+			if p.Type != data.PointTypeActive {
+				continue
+			}
+			if e.Subject == "p.c0" {
+				nCond++
+				lastCond = p.Value
+			}
+			if e.Subject == "p.r" {
+				nRule++
+				lastRule = p.Value
+			}
+		}
+	}
+	b2f := func(b bool) float64 {
+		if b {
+			return 1
+		}
+		return 0
+	}
+	if want != condWas {
+		vAssert(nCond >= 1 && lastCond == b2f(want), "a schedule condition's change of state is written to the condition node")
+	}
+	if all != ruleWas {
+		vAssert(nRule == 1 && lastRule == b2f(all), "a change of the rule's state is written to the rule node once")
+	} else {
+		vAssert(nRule == 0, "no rule state point without a change")
 	}
 }
